@@ -666,6 +666,9 @@ def run_history(pool: dict, ops: list, run_seed: int, refs: dict) -> tuple[list,
 
 def run_item(item: dict) -> dict:
     """pmap unit: one input pool, its reference digests, and K histories over it."""
+    trace.all_repo_codes()  # built once per shard worker, inherited by the forked simulated processes
+    trace._code_objects_with_sites(trace.assert_sites())
+    trace.with_lines()
     pool_seed, tier = item["pool_seed"], item["tier"]
     pool = forkrun(make_pool, pool_seed, timeout=300)
     res = {"pool_seed": pool_seed, "histories": 0, "ops": 0, "faults_fired": 0, "faults_not_reached": 0, "violations": [],
@@ -890,7 +893,7 @@ def fresh_item(item: dict) -> dict:
 
 # ---- the check ------------------------------------------------------------------------------------------
 
-TIERS = {"quick": {"pools": 48, "histories": 4, "fresh": 16, "wall_cap": 80.0},
+TIERS = {"quick": {"pools": 130, "histories": 4, "fresh": 24, "wall_cap": 80.0},
          "thorough": {"pools": 700, "histories": 8, "fresh": 300, "wall_cap": 1500.0}}
 
 
